@@ -1,6 +1,7 @@
 import Driver.Proto
 import Driver.C17
 import Driver.C05
+import Driver.Ref
 
 open Driver
 
@@ -16,6 +17,9 @@ def main (args : List String) : IO UInt32 := do
     return 0
   | ["c05seq"] =>
     forLines stdin fun l => stdout.putStrLn (c05Seq (fields l))
+    return 0
+  | ["ref"] =>
+    forLines stdin fun l => stdout.putStrLn (refLine (fields l))
     return 0
   | _ =>
     IO.eprintln "usage: cbdriver <cmd>"
